@@ -7,7 +7,7 @@ from . import common as c
 C04_TAGS = {"TEMPLATE", "EMPTY_NAME", "RESERVED", "ILLEGAL_STRUCT", "DUP_STRUCT", "SHADOW", "ILLEGAL_FIELD", "DUP_FIELD",
             "UNRESOLVED", "USECOUNT"}
 C14_TAGS = {"NAME_SHAPE", "NEEDLESS_QUALIFICATION", "FIRST_NOT_ROOT", "STRUCT_COUNT"}
-C09_TAGS = {"FIELD_ORDER", "SORT_CHANGES_MORE", "STRUCT_COUNT"}
+C09_TAGS = {"FIELD_ORDER", "STRUCT_ORDER", "SORT_CHANGES_MORE", "STRUCT_COUNT"}
 C10_TAGS = {"DERIVE", "NEEDLESS_RENAME", "OPTION_CHANGES_SKELETON", "FIELDS_DIFFER", "STRUCT_COUNT"}
 C16_TAGS = {"FIELDS_DIFFER", "STRUCT_COUNT"} | C04_TAGS
 
@@ -27,6 +27,11 @@ POOLS = {
     "keywords8": ["use", "where", "while", "become", "final", "override"],
     "keywords9": ["priv", "typeof", "unsized", "virtual", "Match", "USE"],
     "digits": ["a1", "a_1", "A1", "a1b"],
+    "attrsame": ["a", "b"],
+    # a namespace prefix in front of a local name that starts with a digit (inside C04's domain: a letter comes first)
+    "digitlocal": ["ns:1a", "type", "x"],
+    "casefold": ["aB", "Ab", "ab"],
+    "kwparent": ["type", "ns:a", "a-b", "loop"],
     # literals equal to the identifier the renderer derives for a keyword-named sibling: <parent>_<keyword>
     "kwsibling": ["item", "type", "item_type"],
     "caseruns": ["HTTPResponse", "httpResponse", "HttpResponse", "VendorRateID"],
@@ -41,7 +46,7 @@ POOLS = {
     "suffixgap": ["foo", "Foo", "FOO", "foo_3"],
     "attrcase": ["ID", "Id", "item"],
 }
-ATTRS = {"kwsibling": ["item_type", "type"], "keywords2": ["type", "ref"], "keywords3": ["in", "use"], "keywords4": ["enum", "static"], "keywords5": ["for", "let"],
+ATTRS = {"digitlocal": ["type", "n:2b"], "attrsame": ["a", "b"], "kwparent": ["type", "loop"], "kwsibling": ["item_type", "type"], "keywords2": ["type", "ref"], "keywords3": ["in", "use"], "keywords4": ["enum", "static"], "keywords5": ["for", "let"],
          "keywords6": ["mod", "pub"], "keywords7": ["struct", "true"], "keywords8": ["where", "while"], "keywords9": ["virtual", "yield"],
          "digits": ["a1", "A1"], "suffixlit": ["foo", "foo_attr"], "suffixgap": ["foo"], "xmlnsish": ["xml:lang", "x:p", "xmlns:n", "xmlnsx:q"], "attrcase": ["id", "Id"], "default": ["p"], "fields": ["text", "type"], "fields2": ["p", "type"], "prefixed": ["xmlns:n", "n:p"]}
 
